@@ -14,6 +14,7 @@ import cbmc as C  # noqa
 import weave as W  # noqa
 import cxx2c as X  # noqa
 import replay as R  # noqa
+import asmsizes as AS  # noqa
 
 REPO = C.REPO
 
@@ -97,6 +98,10 @@ def prepare_sources(ob, suite_dir, scratch, fired):
                 fired += ["weave:" + x for x in fr2]
             fired += fr
             open(out, "w").write(text)
+        elif "asm_sizes" in f:
+            sizes = AS.measure(REPO, f["asm_sizes"], f["asm"], scratch)
+            open(out, "w").write(AS.header(sizes))
+            fired.append("asm blob sizes measured: %d" % len(sizes))
         else:
             raise C.ToolError("unknown prep step")
         if not f.get("header"):
@@ -166,7 +171,7 @@ def run_obligation(ob, pid, suite_dir, root, keep):
                 else:
                     res["status"] = "ok"
         res["fired"] = fired
-    except (C.ToolError, W.WeaveError, X.ExtractError) as e:
+    except (C.ToolError, W.WeaveError, X.ExtractError, AS.AsmSizeError) as e:
         res["why"] = "%s: %s" % (type(e).__name__, e)
     except Exception as e:  # driver bug: undecided, never a violation
         res["why"] = "driver error: " + traceback.format_exc()[-1500:]
